@@ -55,6 +55,48 @@ def check(P: Project, R: Report) -> None:
     _check_main(P, R)
     _r4_order(P, R)
     _r5_no_invented_message(P, R)
+    _r6_outbound_order(P, R)
+
+
+def _r6_outbound_order(P: Project, R: Report) -> None:
+    """The write stream is the other half of the common contract: what the client writes reaches the server in the order
+    written.  A pipe keeps that order by itself; an HTTP carrier keeps it only if its sender loop finishes transmitting one
+    message before it takes the next — a task spawned per message lets a later POST overtake an earlier one."""
+    R.rule("R6", "outbound order: in every carrier the loop that takes messages off the write stream transmits each one itself, awaited, before taking the next; neither the loop body nor a method it calls spawns a task (create_task / ensure_future / start_soon) for the transmission")
+    from ..roles import self_closure, stream_roles
+
+    SPAWN = ("create_task", "ensure_future", "start_soon", "run_in_executor", "call_soon")
+    n = 0
+    for cname, mod in CARRIERS.items():
+        for ci in [c for c in P.classes.values() if c.module.name == mod]:
+            meths = P.methods(ci)
+            if "get_streams" not in meths:
+                continue
+            try:
+                out_recv = "self." + stream_roles(P, ci)["outgoing_recv"]
+            except AnalysisError:
+                continue
+            for f in meths.values():
+                for loop in [x for x in walk_local(f.node) if isinstance(x, (ast.For, ast.AsyncFor)) and out_recv in ast.unparse(x.iter)]:
+                    n += 1
+                    R.fn(f.fq)
+                    spawned = []
+                    callees = {}
+                    for c in walk_local(loop):
+                        if isinstance(c, ast.Call):
+                            nm = call_name(c)
+                            if nm.split(".")[-1] in SPAWN:
+                                spawned.append((f, c))
+                            if nm.startswith("self.") and nm[5:] in meths:
+                                callees.update(self_closure(P, ci, meths[nm[5:]]))
+                    for g in callees.values():
+                        for c in walk_local(g.node):
+                            if isinstance(c, ast.Call) and call_name(c).split(".")[-1] in SPAWN:
+                                spawned.append((g, c))
+                    R.ob("R6", f"{cname}: the sender loop of {f.qual} transmits every message itself before taking the next", not spawned, f"{f.module.rel}:{(spawned[0][1].lineno if spawned else loop.lineno)}",
+                         (f"`{ast.unparse(spawned[0][1])[:60]}` in {spawned[0][0].qual} hands the transmission to a task: two messages written one after the other are in flight together and the later one can reach the server first (a request can overtake the notification written before it) — a pipe carrier never reorders" if spawned else ""),
+                         sample=f"R6 {cname} {f.qual}: sequential sender loop")
+    R.need(n >= 2, f"anchor: sender loops over the write stream found in {n} carriers (http, legacy sse and stdio expected)")
 
 
 def _r5_no_invented_message(P: Project, R: Report) -> None:
